@@ -105,7 +105,9 @@ def gen(tier, rng):
     # histories whose "edits" change nothing (deleting absent lines, retyping a line as it is) after a run that left definitions,
     # variables, a DATA position and type defaults behind: RUN n must still behave as in a fresh interpreter with this listing
     KEEP = ['10 DEF FNA(X)=X+1', '20 DEFINT Q:Q=2.6:A=7:DIM Z(3):Z(1)=5', '30 DATA 11,12', '40 READ D', '50 PRINT "f";FNA(1);Q;A;Z(1);D', '60 END']
-    NOOPS = [sess.E("15"), sess.E("45"), sess.E("LIST"), sess.E('PRINT "d"'), sess.E("70"), sess.E("CLEAR"), sess.E("GOTO 60"), sess.E("X=1")]
+    NOOPS = [sess.E("15"), sess.E("45"), sess.E("LIST"), sess.E('PRINT "d"'), sess.E("70"), sess.E("CLEAR"), sess.E("GOTO 60"), sess.E("X=1"),
+             # a replacement that changes nothing but the letter case inside a string or a remark is an edit like any other
+             sess.E('50 PRINT "F";FNA(1);Q;A;Z(1);D'), sess.E('60 END \' Done'), sess.E('30 DATA 11,12'), sess.E('50 PRINT "f";FNA(1);Q;A;Z(1);D')]
     for hi in range(40 if tier == "quick" else 1500):
         calls = ["R100"] + [sess.E(l) for l in KEEP] + [sess.E("RUN"), "R100"]
         for _ in range(rng.randint(0, 3)):
